@@ -369,6 +369,14 @@ def run(M, rep, tier, only=None):
         else:
             rep.ok(R4, "SampledDimension.index_of")
 
+    # ---- R6: a dimension descriptor answers from the file, not from what an earlier call saw
+    R6 = rep.rule("C07.R6", "dimension descriptors keep nothing read from the file (ticks, labels, interval ... are read on every conversion)",
+                  floor=1, technique="stateless-handle classification (see C02.R7)")
+    from . import stateless
+    n6 = stateless.run(M, rep, R6, only_classes={"Dimension", "SampledDimension", "RangeDimension", "SetDimension", "DimensionLink"})
+    if not n6:
+        rep.ok(R6, "dimension handles", "no instance attribute is written outside the constructors")
+
     # ---- R5 (shared with C05.R5): the conversions take ticks / labels from the accessors, which follow a link when the
     # dimension is linked -- reading the dimension's own stored copy converts against stale or absent values
     R5 = rep.rule("C07.R5", "position->index conversions read ticks/labels through the accessors (linked values when linked)", floor=4,
